@@ -90,11 +90,33 @@ def real_checks(tier):
     """concrete cross-check beyond the solver bound: medium continua (3x5, 4x4, 2x9, 5x3 units, an annotator without units, overlapping /
     nested / unlabelled units) on the real build against an independent MILP (scipy / HiGHS) over ALL tuples, both back-ends"""
     import os
-    return [dict(kind="medium", name="best alignment of medium continua == independent MILP optimum over all tuples (both back-ends)",
+    return [dict(kind="crowded", name="best alignment of a crowded 5x8 continuum (59049 candidates, three buffer growths) is returned and is a partition"),
+            dict(kind="medium", name="best alignment of medium continua == independent MILP optimum over all tuples (both back-ends)",
                  seed=int(os.environ.get("VERIF_SEED", "0") or 0))]
 
 
+def _crowded():
+    """5 annotators x 8 heavily overlapping units + one isolated unit: 59049 candidate tuples (the candidate buffer grows three times), all of
+    them kept by the pruning; the best alignment must still come back and be a partition"""
+    import pygamma_agreement as pa
+    from pyannote.core import Segment
+    c = pa.Continuum()
+    for a in range(5):
+        for j in range(8):
+            c.add(f"annotator_{a}", Segment(0.3 * j + 0.05 * a, 0.3 * j + 0.05 * a + 6.0), "xyz"[(a + j) % 3])
+    c.add("annotator_0", Segment(500.0, 503.0), "x")
+    D = pa.CombinedCategoricalDissimilarity(alpha=1, beta=1, delta_empty=1)
+    try:
+        A = c.get_best_alignment(D)
+    except Exception as ex:     # noqa: BLE001
+        return dict(reproduced=True, detail="crowded 5 x 8 continuum (59049 candidates): get_best_alignment raised " + repr(ex)[:200])
+    bad = pipeline.real_check_alignment(None, c, A, False)
+    return dict(reproduced=bool(bad), detail="; ".join(bad[:3]))
+
+
 def replay(case):
+    if case.get("kind") == "crowded":
+        return _crowded()
     if case.get("kind") == "ieee-kernel":
         from . import c07
         return c07.replay(case)
